@@ -1093,6 +1093,12 @@ case('dict.delete', 'delete/delete_keys', lambda e: r_delete_keys(e, [e.k, e.r])
 case('deleteAll', 'deleteAll/delete_keys_seq', lambda e: r_delete_keys(e, [e.k, e.r]),
      api=lambda e, P, name: M(name, e.m(), P((e.k, e.r))), text='$m.deleteAll($kr)', uses='c d k r', dom=m_dom,
      nones=False)
+# persistent update: the base of an update is still the base afterwards, also when the base is itself the (plain)
+# result of an earlier library call bound to a variable
+case('dict.delete.persistent', ['delete/delete_keys', 'deleteAll/delete_keys_seq'],
+     lambda e: [r_delete_keys(e, [e.k, e.r]), as_dict(*m_model(e)), r_delete_keys(e, [e.k]), as_dict(*m_model(e))],
+     text='let(b => $m.deleteAll([])) -> [$b.delete($k, $r), $b, $b.deleteAll([$k]), $b]', uses='c d k r', dom=m_dom,
+     nones=False, pres=('tuple',), cost=2)
 case('insert.iterator', 'insert/iter_insert', lambda e: r_insert(e, e.i, [e.v]),
      api=lambda e, P, name: M(name, P(e.t), e.i, e.v), text='$c.insert($i, $v)', uses='c i v', pres=('iter',))
 case('insert.list', 'insert/list_insert', lambda e: r_insert(e, e.i, [e.v]),
@@ -1157,7 +1163,7 @@ case('with', 'with/with_', lambda e: [e.v, e.i, None], text='with($v, $i) -> [$1
 # dict, so those are kept in a small range (elements 0..2, key constants -1..3) to keep the path tree finite
 for _cid in ['build_map.keys', 'dict.items', 'toDict', 'toDict.value', 'dict.indexer', 'dict.indexer.default', 'get',
              'get.default', 'dict.set', 'dict.set.many', 'keys', 'values', 'items', 'containsKey', 'containsValue',
-             'plus.dicts', 'len.dict', 'dict.delete', 'deleteAll', 'groupBy', 'groupBy.value', 'groupBy.aggregate']:
+             'plus.dicts', 'len.dict', 'dict.delete', 'deleteAll', 'dict.delete.persistent', 'groupBy', 'groupBy.value', 'groupBy.aggregate']:
     CASES[_cid]['small'] = True
 
 for _cid in ('insert.list', 'add', 'remove', 'set.iterator', 'enumerate.start', 'replace.one', 'splitAt', 'slice', 'cycle'):
